@@ -11,6 +11,9 @@ import (
 )
 
 // divideCmd represents the divide command
+// prefix of the output files (own variable: the shared output variable ends up with the default "stdout")
+var divideOutPrefix string
+
 var divideCmd = &cobra.Command{
 	Use:   "divide",
 	Short: "Divide an input tree file into several tree files",
@@ -42,7 +45,7 @@ gotree divide -i trees.nw -o prefix_
 				io.LogError(t.Err)
 				return t.Err
 			}
-			if f, err = openWriteFile(fmt.Sprintf("%s_%03d.nw", outtreefile, i)); err != nil {
+			if f, err = openWriteFile(fmt.Sprintf("%s_%03d.nw", divideOutPrefix, i)); err != nil {
 				io.LogError(err)
 				return
 			}
@@ -57,5 +60,5 @@ gotree divide -i trees.nw -o prefix_
 func init() {
 	RootCmd.AddCommand(divideCmd)
 	divideCmd.PersistentFlags().StringVarP(&intreefile, "input", "i", "stdin", "Input tree(s) file")
-	divideCmd.PersistentFlags().StringVarP(&outtreefile, "output", "o", "prefix", "Divided trees output file prefix")
+	divideCmd.PersistentFlags().StringVarP(&divideOutPrefix, "output", "o", "prefix", "Divided trees output file prefix")
 }
